@@ -817,4 +817,32 @@ theorem magang_groups_le_two (l : List (Int × Int)) (hl : l.Nodup) : ∀ g ∈ 
 
 example : groupByKey [(2, 2), (3, 1), (2, -2), (0, 0)] = [((2, 2), [0, 2]), ((3, 1), [1]), ((0, 0), [3])] := by decide
 
+
+/-- the name suffix of an order says whether it is a cosine or a sine term: for a valid `(n, m)`, `n ≥ 2`, the translated
+    `nm_to_name` ends in `X` / `00°` exactly when `m > 0` and in `Y` / `45°` exactly when `m < 0` (`X`,`Y` for odd `m`) -/
+theorem name_suffix_iff_cosine (n m : Int) (h : Valid n m) (hn : 2 ≤ n) (k : Int × Int × Int × Int)
+    (hk : Generated.C11.nameKey n m = some k) :
+    (0 < m ↔ (k.2.2.2 = 0 ∨ k.2.2.2 = 2)) ∧ (m % 2 = 1 ↔ (k.2.2.2 = 0 ∨ k.2.2.2 = 1)) := by
+  rw [gen_nameKey n m h] at hk
+  have e := Option.some.inj hk
+  subst e
+  rcases nameKey_cases n m h with ⟨_, _, k⟩ | ⟨_, _, k⟩ | ⟨_, _, k⟩ | ⟨_, _, k⟩ | ⟨_, _, k⟩ | ⟨_, _, _, k⟩ | ⟨_, _, _, k⟩ | ⟨_, _, _, k⟩ | ⟨_, _, _, k⟩ <;>
+  (rw [k]; simp <;> omega)
+
+/-- Noll's rule in terms of the names: for every Noll index `j ≥ 1` whose order has `m ≠ 0` and `n ≥ 2`, `j` is even exactly when the
+    name `nm_to_name(*noll_to_nm(j))` is a cosine term (suffix `X` or `00°`) — the two translated functions agree on the convention -/
+theorem noll_even_iff_cosine_name (j : Int) (hj : 1 ≤ j) (q : Int × Int) (h : Generated.C11.nollToNm j = some q)
+    (hm : q.2 ≠ 0) (hn : 2 ≤ q.1) (k : Int × Int × Int × Int) (hk : Generated.C11.nameKey q.1 q.2 = some k) :
+    (j % 2 = 0 ↔ (k.2.2.2 = 0 ∨ k.2.2.2 = 2)) := by
+  obtain ⟨q', hq', hv⟩ := noll_valid j hj
+  rw [h] at hq'
+  have := Option.some.inj hq'
+  subst this
+  rw [noll_even_iff_cosine j hj q h hm]
+  exact (name_suffix_iff_cosine q.1 q.2 hv hn k hk).1
+
+example : ∃ j q k, 1 ≤ j ∧ Generated.C11.nollToNm j = some q ∧ q.2 ≠ 0 ∧ 2 ≤ q.1 ∧ Generated.C11.nameKey q.1 q.2 = some k :=
+  ⟨nmToNoll 3 1, (3, 1), (4, 1, 1, 0), (noll_surjective 3 1 (by decide)).1, (noll_surjective 3 1 (by decide)).2, by decide, by decide,
+   by rw [gen_nameKey _ _ (by decide)]; rfl⟩
+
 end C11
